@@ -12,7 +12,13 @@ pub mod source {
     #[derive(Clone, Copy)] pub struct IoErrorKind { pub code: u8 }
     /// oq3_source_file::ParsedSource = ParseOrErrors<synast::SourceFile>
     #[verifier::external_body] pub struct ParsedSource { _p: u8 }
+    /// a syntax diagnostic (opaque here)
+    #[verifier::external_body] pub struct SynErr { _p: u8 }
     impl ParsedSource {
+        /// number of syntax diagnostics recorded for this text
+        pub uninterp spec fn sp_n_errors(&self) -> nat;
+        /// oq3_syntax ParseOrErrors::errors: `&self.errors`
+        #[verifier::external_body] pub fn errors(&self) -> (r: &[SynErr]) ensures r@.len() == self.sp_n_errors() { unimplemented!() }
         pub uninterp spec fn sp_tree(&self) -> synast::SourceFile;
         /// oq3_syntax: the typed root of the tree (panics without a tree: only called on sources that have one)
         #[verifier::external_body] pub fn tree(&self) -> (r: synast::SourceFile) ensures r == self.sp_tree() { unimplemented!() }
@@ -32,7 +38,9 @@ pub mod source {
         fn file_path(&self) -> &Path;
     }
     impl SourceTrait for SourceFile {
-        uninterp spec fn sp_have_syntax_errors(&self) -> bool;
+        /// C11: "the source or any included file has any syntax diagnostic" (has_errs, below); the default method of the trait is verified
+        /// against it as oq3_have_syntax_errors (D40)
+        open spec fn sp_have_syntax_errors(&self) -> bool { has_errs(*self) }
         uninterp spec fn sp_included(&self) -> Seq<SourceFile>;
         uninterp spec fn sp_syntax_ast(&self) -> Option<ParsedSource>;
         #[verifier::external_body] fn have_syntax_errors(&self) -> (r: bool) { unimplemented!() }
@@ -40,7 +48,21 @@ pub mod source {
         #[verifier::external_body] fn syntax_ast(&self) -> (r: Option<&ParsedSource>) { unimplemented!() }
         #[verifier::external_body] fn file_path(&self) -> &Path { unimplemented!() }
     }
+    /// this file itself has a syntax diagnostic
+    pub open spec fn own_errs(s: SourceFile) -> bool { s.sp_syntax_ast() is Some && s.sp_syntax_ast()->Some_0.sp_n_errors() > 0 }
+    /// ... or any file it includes, directly or not, has one
+    pub open spec fn has_errs(s: SourceFile) -> bool
+        decreases s.sp_depth()
+    {
+        own_errs(s) || exists|i: int| 0 <= i < s.sp_included().len() && s.sp_included()[i].sp_depth() < s.sp_depth() && has_errs(#[trigger] s.sp_included()[i])
+    }
+    /// assumed: the include tree is finite (`included: Vec<SourceFile>` is owned data), so every file has a depth above those it includes
+    #[verifier::external_body] pub broadcast proof fn axiom_include_depth(s: SourceFile, i: int)
+        requires 0 <= i < s.sp_included().len(),
+        ensures (#[trigger] s.sp_included()[i]).sp_depth() < s.sp_depth(),
+    {}
     impl SourceFile {
+        pub uninterp spec fn sp_depth(&self) -> nat;
         pub uninterp spec fn sp_include_error(&self) -> Option<IncludeError>;
         #[verifier::external_body] pub fn include_error(&self) -> (r: Option<&IncludeError>)
             ensures (r is Some) == (self.sp_include_error() is Some), r is Some ==> *r->Some_0 == self.sp_include_error()->Some_0
